@@ -154,6 +154,48 @@ Theorem E2E_processed_sound : forall l, processed_ok l = true ->
   (forall p, In p l -> p_genuine p = 1) /\ NoDup (map pkey l).
 Proof. exact processed_sound. Qed.
 
+(* C08 (e2e_pn).  The judge runs pn_monitor over the event log ... *)
+Theorem E2E_pn_judge_parts : forall case out, e2e_pn_judge case out = true ->
+  exists rws, take_rows 8 (nz out 6) (skipn 7 out) = Some (rws, []) /\
+    pn_monitor (nz out 3) (nz out 4) (map mk_xrow rws) = true.
+Proof. exact pn_judge_parts. Qed.
+
+Theorem E2E_pn_monitor_parts : forall endt mad l, pn_monitor endt mad l = true ->
+  (forall ep sp, (ep = 0 \/ ep = 1) -> (sp = 0 \/ sp = 1 \/ sp = 2) ->
+     incr1 ep sp (-1) l = true /\ ack1 ep sp [] l = true) /\
+  ackt 0 (mad + ACK_SLACK_US) endt [] (-1) l = true /\
+  ackt 1 (mad + ACK_SLACK_US) endt [] (-1) l = true.
+Proof. exact pn_monitor_parts. Qed.
+
+(* packet numbers built for sending by one endpoint in one space strictly increase (also across a Retry) *)
+Theorem E2E_pn_strictly_increase : forall ep sp l pre o mid r post,
+  incr1 ep sp (-1) l = true -> l = pre ++ o :: mid ++ r :: post ->
+  row_is 0 ep sp o = true -> row_is 0 ep sp r = true -> x_a o < x_a r.
+Proof. exact pn_strictly_increase. Qed.
+
+(* every packet number inside a range of an ACK frame an endpoint sends was processed by that
+   endpoint in that space earlier in the log *)
+Theorem E2E_pn_ack_ranges_processed : forall ep sp l pre r post x,
+  ack1 ep sp [] l = true -> l = pre ++ r :: post -> row_is 2 ep sp r = true ->
+  x_a r <= x <= x_b r ->
+  exists o, In o pre /\ row_is 1 ep sp o = true /\ x_a o = x.
+Proof. exact ack_ranges_processed. Qed.
+
+(* every obligation the monitor creates (an ack-eliciting application-space packet that is the
+   largest processed so far, deadline = processing time + max_ack_delay + slack) is discharged *)
+Theorem E2E_pn_acks_timely : forall ep d endt l pend largest,
+  ackt ep d endt pend largest l = true ->
+  (forall p, In p pend -> Discharged ep endt p l) /\
+  (forall ob, In ob (obligations ep d largest l) -> Discharged ep endt (fst ob) (snd ob)).
+Proof. exact ackt_sound. Qed.
+
+Theorem E2E_pn_discharged_meaning : forall ep endt p l, Discharged ep endt p l ->
+  (exists pre r post, l = pre ++ r :: post /\
+     (forall o, In o pre -> x_t o <= snd p) /\ x_t r <= snd p /\
+     (closes ep r = true \/ (row_is 2 ep 2 r = true /\ x_a r <= fst p <= x_b r))) \/
+  ((forall o, In o l -> x_t o <= snd p) /\ endt <= snd p).
+Proof. exact discharged_meaning. Qed.
+
 Print Assumptions E2E_stream_judge_parts.
 Print Assumptions E2E_c01_sound.
 Print Assumptions E2E_c01_all.
@@ -176,3 +218,9 @@ Print Assumptions E2E_inject_judge_parts.
 Print Assumptions E2E_processed_sound.
 Print Assumptions E2E_c03_highs_meaning.
 Print Assumptions E2E_stream_judge_split.
+Print Assumptions E2E_pn_judge_parts.
+Print Assumptions E2E_pn_monitor_parts.
+Print Assumptions E2E_pn_strictly_increase.
+Print Assumptions E2E_pn_ack_ranges_processed.
+Print Assumptions E2E_pn_acks_timely.
+Print Assumptions E2E_pn_discharged_meaning.
